@@ -176,7 +176,8 @@ class Panoptica_Evaluator(SupportsConfig):
                 verbose=False,
             )
             self.__resulting_metric_keys = list(res.to_dict().keys())
-        return self.__resulting_metric_keys
+        # hand out a copy: callers (e.g. the aggregator) extend the list they receive
+        return list(self.__resulting_metric_keys)
         # panoptic_evaluate
 
     def _evaluate_group(
